@@ -144,6 +144,16 @@ def onlinePower : Map Oracle → Nat
 
 def refresh (s : State) : State := { s with lastTotalPower := onlinePower s.oracles }
 
+/-- `SetLastTotalPower` as the handler places it (regenerated `RefreshRule`): `old` is the state before the oracle record
+was stored, `s'` the state after; `pos` = the guard `delegateCoin.IsPositive()` of the conditional form -/
+def applyRefresh (rule : RefreshRule) (pos : Bool) (old s' : State) : State :=
+  match rule with
+  | .afterStore => refresh s'
+  | .beforeStore => { s' with lastTotalPower := onlinePower old.oracles }
+  | .ifPositiveAfterStore => if pos then refresh s' else s'
+  | .other => s'
+  | .none => s'
+
 /-- power a vote contributes in `TryAttestation`: 0 when the address is not a registered oracle -/
 def powerOf (m : Map Oracle) (v : Nat) : Nat :=
   match m.get v with
@@ -154,8 +164,9 @@ def votePower (m : Map Oracle) : List Nat → Nat
   | [] => 0
   | v :: vs => powerOf m v + votePower m vs
 
-/-- `requiredPower := AttestationVotesPowerThreshold.Mul(totalPower).Quo(NewInt(100))` -/
-def required (total : Nat) : Nat := votesThreshold * total / votesDivisor
+/-- `requiredPower := AttestationVotesPowerThreshold.Mul(totalPower).Quo(NewInt(100))` — the expression the extractor
+reads off `TryAttestation` now (helper functions inlined), evaluated -/
+def required (total : Nat) : Nat := requiredExpr.eval votesThreshold total
 
 /-- `attestationPower.LT(requiredPower)` → keep summing -/
 def below (acc req : Nat) : Bool :=
@@ -261,12 +272,7 @@ def bondStep (s : State) (o b e amt : Nat) (dep : Bool) : State × Out :=
   if amt < s.params.threshold then (s, .belowMin) else
   if s.params.threshold * s.params.multiple < amt then (s, .aboveMax) else
   if !dep then (s, .dep) else
-  if refreshOnBond
-  then (refresh { s with
-    oracles := s.oracles.set o { bridger := b, ext := e, stake := amt, online := true, slashTimes := 0 }
-    byBridger := s.byBridger.set b o
-    byExt := s.byExt.set e o }, .ok)
-  else ({ s with
+  (applyRefresh bondRefreshRule true s { s with
     oracles := s.oracles.set o { bridger := b, ext := e, stake := amt, online := true, slashTimes := 0 }
     byBridger := s.byBridger.set b o
     byExt := s.byExt.set e o }, .ok)
@@ -277,9 +283,8 @@ def addDelegateTo (s : State) (o : Nat) (orc : Oracle) (sl amt : Nat) (dep : Boo
   if orc.stake + (amt - sl) < s.params.threshold then (s, .belowMin) else
   if s.params.threshold * s.params.multiple < orc.stake + (amt - sl) then (s, .aboveMax) else
   if !dep then (s, .dep) else
-  if refreshOnAddDelegate
-  then (refresh { s with oracles := s.oracles.set o { orc with stake := orc.stake + (amt - sl), online := true, slashTimes := 0 } }, .ok)
-  else ({ s with oracles := s.oracles.set o { orc with stake := orc.stake + (amt - sl), online := true, slashTimes := 0 } }, .ok)
+  (applyRefresh addDelegateRefreshRule (decide (0 < amt - sl)) s
+    { s with oracles := s.oracles.set o { orc with stake := orc.stake + (amt - sl), online := true, slashTimes := 0 } }, .ok)
 
 def addDelegateStep (s : State) (o amt : Nat) (dep : Bool) : State × Out :=
   if !s.proposal.contains o then (s, .noOracle) else
